@@ -37,7 +37,16 @@ def _log_attr(cls_methods: dict[str, ast.FunctionDef]) -> str:
             for a in ast.walk(n.iter):
                 if isinstance(a, ast.Attribute) and isinstance(a.value, ast.Name) and a.value.id == "self" and a.attr in lists:
                     return a.attr
-    raise AnalysisError("undo log attribute not found (list attribute of __init__ iterated by rollback)")
+    # rollback iterates a local alias of the log (`ops, self.log = self.log, []`): the log is the list attribute that add()/remove() append to
+    for m in ("add", "remove"):
+        f = cls_methods.get(m)
+        if f is None:
+            continue
+        for n in own_nodes(f):
+            if isinstance(n, ast.Call) and isinstance(n.func, ast.Attribute) and n.func.attr in ("append", "remove") and isinstance(n.func.value, ast.Attribute) \
+                    and isinstance(n.func.value.value, ast.Name) and n.func.value.value.id == "self" and n.func.value.attr in lists:
+                return n.func.value.attr
+    raise AnalysisError("undo log attribute not found (list attribute of __init__ iterated by rollback / appended to by add and remove)")
 
 
 def _is_log_call(c: ast.AST, log: str, meth: str | None = None) -> bool:
@@ -318,12 +327,21 @@ def run(repo: Repo, rep: Report) -> None:
     )
     rb = methods["rollback"]
     loop = None
+    # local aliases of the log (`ops = self.log`, `ops, self.log = self.log, []`)
+    log_alias = set()
     for n in own_nodes(rb):
-        if isinstance(n, ast.For) and ("self." + log) in norm(n.iter):
+        if isinstance(n, ast.Assign) and len(n.targets) == 1:
+            t, v = n.targets[0], n.value
+            pairs = list(zip(t.elts, v.elts)) if isinstance(t, ast.Tuple) and isinstance(v, ast.Tuple) and len(t.elts) == len(v.elts) else [(t, v)]
+            for tt, vv in pairs:
+                if isinstance(tt, ast.Name) and norm(vv) in ("self." + log, "list(self.%s)" % log, "self.%s[:]" % log, "self.%s.copy()" % log):
+                    log_alias.add(tt.id)
+    for n in own_nodes(rb):
+        if isinstance(n, ast.For) and (("self." + log) in norm(n.iter) or norm(n.iter) in log_alias):
             loop = n
     if loop is None:
         raise AnalysisError("rollback loop over the undo log not found")
-    order_ok = norm(loop.iter) == "self." + log or norm(loop.iter) in ("reversed(self.%s)" % log, "self.%s[::-1]" % log, "list(self.%s)" % log)
+    order_ok = norm(loop.iter) == "self." + log or norm(loop.iter) in ("reversed(self.%s)" % log, "self.%s[::-1]" % log, "list(self.%s)" % log) or norm(loop.iter) in log_alias
     rep.ob("C18.c-rollback-dispatch", mod, CLS + ".rollback", loop.iter, order_ok,
            "replays every entry of the log" if order_ok else "rollback iterates %s, not the whole log" % norm(loop.iter), node=loop)
     tg = [norm(e) for e in loop.target.elts] if isinstance(loop.target, ast.Tuple) else []
@@ -454,3 +472,37 @@ def run(repo: Repo, rep: Report) -> None:
             rep.ob("C18.i-no-unsynchronised-state", mod, "%s.%s" % (CLS, mname), "self.%s reset by %s" % (a, mname), ok,
                    "" if ok else "self.%s is written by %s but %s() does not reset it: after the transaction ends it still describes the undone/committed state (e.g. a stale `already present` memo drops a later add)" % (a, sorted({x for x, _ in sites}), mname),
                    node=sites[0][1])
+
+
+_run_base = run
+
+
+def run(repo: Repo, rep: Report) -> None:  # noqa: F811
+    _run_base(repo, rep)
+    mod = repo.mod("rdflib.plugins.stores.auditable")
+    methods = mod.methods("AuditableStore")
+    # ------------------------------------------------------------------ (j)
+    rep.rule("C18.j-guards-and-branch-tests-see-the-context",
+             "the presence guards of add/remove ask the wrapped store about the triple IN THE GIVEN CONTEXT (the triples() call of the guard passes the context), and the test "
+             "that sends remove() down the concrete single-quad branch also requires the context to be given (context None means `every graph`, i.e. a wildcard): otherwise a triple "
+             "present in another graph makes add() a no-op, and remove((s,p,o), None) logs one entry with context None that rollback replays into a fresh blank-node graph", floor=3)
+    for mname in ("add", "remove"):
+        f = methods[mname]
+        ctx = f.args.args[2].arg
+        for n in own_nodes(f):
+            if isinstance(n, ast.If) and any(isinstance(r, ast.Return) for r in n.body) and len(n.body) == 1:
+                calls = [c for c in ast.walk(n.test) if isinstance(c, ast.Call) and isinstance(c.func, ast.Attribute) and c.func.attr == "triples"]
+                for c in calls:
+                    passes = any(norm(a) == ctx for a in c.args[1:]) or any(norm(k.value) == ctx for k in c.keywords)
+                    rep.ob("C18.j-guards-and-branch-tests-see-the-context", mod, "AuditableStore." + mname, c, passes,
+                           "asks about the given context" if passes else "the presence guard ignores the context: the triple being in ANY graph decides whether the operation on %s is a no-op" % ctx, node=c)
+    f = methods["remove"]
+    ctx = f.args.args[2].arg
+    wild = [n for n in own_nodes(f) if isinstance(n, ast.If) and isinstance(n.test, ast.Compare) and isinstance(n.test.left, ast.Constant) and n.test.left.value is None and isinstance(n.test.ops[0], ast.In) and n.orelse]
+    if not wild:
+        raise AnalysisError("AuditableStore.remove: wildcard branch test not found")
+    for n in wild:
+        names_ = {x.id for x in ast.walk(n.test.comparators[0]) if isinstance(x, ast.Name)}
+        ok = ctx in names_
+        rep.ob("C18.j-guards-and-branch-tests-see-the-context", mod, "AuditableStore.remove", n.test, ok,
+               "the context counts as a wildcard position" if ok else "a fully specified triple removed with context None takes the single-quad branch: one undo entry with context None instead of one per graph", node=n)
